@@ -4,6 +4,7 @@ from .mhkernel import MHKernelEngine
 from .gibbs import GibbsEngine
 from .streams import StreamsEngine
 from .objhist import ObjHistEngine
+from .nuts import NutsEngine
 
 REGISTRY = {
     "chain": ChainEngine,
@@ -11,9 +12,12 @@ REGISTRY = {
     "gibbs": GibbsEngine,
     "streams": StreamsEngine,
     "objhist": ObjHistEngine,
+    "nuts": NutsEngine,
 }
 
 PLAN = {
+    "C08": [{"engine": "nuts", "level": "exploration",
+             "quick": {"runs": 480, "budget_s": 240}, "thorough": {"runs": 20000, "budget_s": 3000}}],
     "C11": [{"engine": "objhist", "level": "exploration",
              "quick": {"runs": 400, "budget_s": 240}, "thorough": {"runs": 20000, "budget_s": 3000}}],
     "C01": [{"engine": "objhist", "level": "exploration",
